@@ -1,161 +1,167 @@
-# executed by tools/mkmanifest.py
-check(
-    "C05",
-    "exploration",
-    "All ordered tree shapes up to 8 (quick) / 10 (thorough) nodes with every start node are enumerated and Hypothesis adds shapes up to 60 nodes; each of the five iterators is compared element-wise (identity) with an independently written reference order, plus exactly-once and no-mutation clauses. Complete below the size bound, sampled above; no claim beyond the explored cases. Generated cases carry up to three mutations (move, detach, reverse children, rename); the complete oracle is re-evaluated on the same node objects after each of them (read - mutate - read again), which is what exposes stale caches.",
-    "Trusts the reference orders in vf/refs.py (recursion / explicit queue over .children) and that tree depth stays below the interpreter recursion limit.",
-    "bounded-exhaustive shape enumeration + Hypothesis random trees vs. reference traversal orders",
-    "DESIGN.md section 4 C05",
+# executed by tools/mkmanifest.py: one check(...) per claimed property (id, level, what the level means here, trusted base, technique, design ref)
+COMMON_NOTE = (
+    " Shared trusted base: Hypothesis 6.168 and CPython; the harness maps nodes to labels by id() only; every generated-case shard alternates "
+    "ANYTREE_ASSERTIONS=0/1; a case that does not terminate within 15 s is reported as a violation (clause non-termination); "
+    "tree-based checks also run on node classes with their own __eq__/__hash__/__bool__/__len__ and on classes derived from list/tuple."
 )
-check(
-    "C04",
-    "exploration",
-    "Every node of every ordered tree shape up to 7 (quick) / 9 (thorough) nodes is checked against definitions recomputed from .parent/.children only (identity comparison), commonancestors on all pairs/triples and degenerate argument lists; Hypothesis adds trees up to 40 nodes and mutation histories with all attributes re-checked after every step. Complete below the bound, sampled above.",
-    "Trusts the recomputation in vf/props/c04.py; equal-comparing/falsy node classes are the business of C17, not of this check.",
-    "bounded-exhaustive shapes + Hypothesis trees and mutation histories vs. definitions recomputed from the links",
-    "DESIGN.md section 4 C04",
-)
-check(
-    "C06",
-    "exploration",
-    "The complete product start node x stop subset x filtered-out subset x maxlevel is enumerated on every shape with <= 5 (quick) / <= 6 (thorough) nodes for all five iterators (both ways of passing empty predicates, keyword and positional), and compared with the reference 'admitted set' restriction of the unrestricted order; Hypothesis adds trees up to 25 nodes. Exhaustive inside the bound, sampled beyond. Generated cases carry up to three mutations (move, detach, reverse children, rename); the complete oracle is re-evaluated on the same node objects after each of them (read - mutate - read again), which is what exposes stale caches.",
-    "Trusts the admitted-set reference in vf/refs.py; predicates are pure functions of node identity.",
-    "bounded-exhaustive option product + Hypothesis vs. admitted-set reference restriction",
-    "DESIGN.md section 4 C06",
-)
-check(
-    "C09",
-    "exploration",
-    "Rows of RenderTree are compared with a row oracle built from 'has following sibling' flags for every shape <= 6/7 nodes x start x 7 styles x 5 childiters x every maxlevel, and the drawing is decoded back into a shape from the prefixes alone; Hypothesis adds larger trees, random equal-width styles, multi-line/empty/list/tuple/int/missing/callable values for by_attr and str(), and Node/AnyNode/SymlinkNode reprs with generated attributes and separators. Generated cases carry up to three mutations (move, detach, reverse children, rename); the complete oracle is re-evaluated on the same node objects after each of them (read - mutate - read again), which is what exposes stale caches.",
-    "Assumes lines are separated by '\\n' only and values carry no trailing newline (not generated); custom styles are decodable (cont != end, vertical != blank).",
-    "bounded-exhaustive shapes x options + Hypothesis text values vs. row oracle and decode-back round trip",
-    "DESIGN.md section 4 C09",
-)
-check(
-    "C14",
-    "exploration",
-    "For generated attributed trees (nodes may lack the searched attribute) every (mincount, maxcount) combination around the true match count is executed for findall/findall_by_attr in search and cachedsearch, keyword and positional, plus find/find_by_attr; results are compared by identity with the reference filtered pre-order, CountError is required iff a bound is violated and its message must name both numbers. Generated cases carry up to three mutations (move, detach, reverse children, rename); the complete oracle is re-evaluated on the same node objects after each of them (read - mutate - read again), which is what exposes stale caches.",
-    "Trusts the C06 reference; fastcache is not installed in this sandbox so cachedsearch runs its pass-through wrappers (the property's 'same results' clause is checked on them).",
-    "Hypothesis attributed trees + systematic small cases vs. reference filtered pre-order and iff count-bound predicate",
-    "DESIGN.md section 4 C14",
-)
-check(
-    "C15",
-    "exploration",
-    "Every ordered pair of nodes of every shape up to 7 (quick) / 9 (thorough) nodes, cross-tree pairs, and sampled pairs on Hypothesis trees up to 60 nodes: the triple is compared with path arithmetic on ancestor chains recomputed from .parent, the link/simple-path clauses are checked directly, walk(end,start) must be the mirror image, WalkError iff roots differ. Generated cases carry up to three mutations (move, detach, reverse children, rename); the complete oracle is re-evaluated on the same node objects after each of them (read - mutate - read again), which is what exposes stale caches.",
-    "Trusts the ancestor-chain arithmetic in vf/props/c15.py.",
-    "bounded-exhaustive shapes x all ordered pairs + Hypothesis vs. ancestor-chain path arithmetic and mirror relation",
-    "DESIGN.md section 4 C15",
-)
+
 check(
     "C01",
     "fault_enumeration",
-    "Every labelled ordered forest over N <= 3 (quick) / <= 4 (thorough) nodes x build routes x every structural call (incl. invalid arguments) x every position at which any of the eight hooks can raise (once, pairs, persistent single (hook,node), read-only plan) is executed for a NodeMixin class, a slotted LightNodeMixin class a mixed-family universe and two classes whose instances all compare equal, under both ANYTREE_ASSERTIONS settings, plus Hypothesis histories over eleven class mixes (Node, AnyNode, SymlinkNode, user classes, both mixins); after every call the link invariant is evaluated over everything reachable and no internal assertion may fire. Complete below the bound, sampled above.",
-    "Hooks only raise, they never mutate the tree; the invariant is read through public .parent/.children; calls run under a lowered recursion limit so unbounded rollback recursion ends quickly; a case that does not terminate within 15 s is reported as a violation (non-termination).",
-    "fault enumeration (bounded-exhaustive forests x calls x hook fault positions) + Hypothesis stateful histories vs. structural link invariant",
-    "DESIGN.md section 4 C01",
+    "Every labelled ordered forest over N <= 3 (quick) / <= 4 (thorough) nodes x build routes x every structural call (incl. truthy and falsy non-node arguments, non-iterables) x every position at which any of the eight hooks can raise (once, pairs, persistent single (hook,node), read-only plan), for a NodeMixin class, a slotted LightNodeMixin class, a mixed-family universe, two equal-comparing classes and a universe of nodes and SymlinkNodes pointing at each other, under both ANYTREE_ASSERTIONS settings; Hypothesis histories over 13 class mixes; read-free (blind) histories whose invariant is evaluated once at the end. After every call the link invariant is evaluated over everything reachable and no internal assertion may fire. Complete below the bound, sampled above.",
+    "Hooks only raise (they never edit the tree) in this check; the invariant is read through public .parent/.children; calls run under a lowered recursion limit so the unbounded rollback recursion of KF-C03-4 ends quickly." + COMMON_NOTE,
+    "fault enumeration (bounded-exhaustive forests x calls x hook fault positions) + Hypothesis stateful and read-free histories vs. structural link invariant",
+    "DESIGN.md sections 4 C01, 9.1, 9.5",
 )
 check(
     "C02",
     "exploration",
-    "Every labelled ordered forest over N <= 4 nodes (thorough: N = 5 with short children lists) x every parent assignment x every children sequence x every deletion, plus constructor calls of Node/AnyNode/SymlinkNode with every parent=/children= argument and Hypothesis histories over ten class choices: post-state compared on the whole universe with a closed-form specification, refusal required iff the closed-form predicate says so and with exactly the prescribed class.",
-    "Trusts the closed-form spec in vf/mut.py (written from the statement); families are never mixed; non-node arguments only for NodeMixin classes; non-iterable children belong to C03.",
-    "bounded-exhaustive forests x calls + Hypothesis histories vs. closed-form post-state/refusal specification",
-    "DESIGN.md section 4 C02",
+    "Every labelled ordered forest over N <= 4 nodes (thorough: N = 5 with short children lists) x every parent assignment x every children sequence (lists, tuples, generators) x every deletion; constructors of Node/AnyNode/SymlinkNode with every parent= (incl. falsy non-nodes) and children= argument; Hypothesis histories over 14 class choices; read-free (blind) call sequences of length 2-4 enumerated from the all-roots forest. The post-state of the whole universe is compared with a closed-form specification; a call must be refused iff the closed-form predicate says so, with exactly the prescribed class.",
+    "Trusts the closed-form spec in vf/mut.py (written from the statement); NodeMixin and LightNodeMixin universes are never mixed; non-node arguments only for NodeMixin classes; non-iterable children belong to C03." + COMMON_NOTE,
+    "bounded-exhaustive forests x calls + Hypothesis histories (with and without intermediate reads) vs. closed-form post-state/refusal specification",
+    "DESIGN.md sections 4 C02, 9.1, 9.5",
 )
 check(
     "C03",
     "fault_enumeration",
-    "Every forest over N <= 3 (quick) / <= 4 (thorough) nodes x every call x every position at which a pre-hook can raise (once, pairs covering rollback hooks, persistent single (hook,node), read-only plan) and every invalid argument, plus Hypothesis histories; in-scope failing calls must leave the whole-universe snapshot unchanged. Four known findings (KF-C03-1..4) are recognised only when a step model of the current rollback algorithm predicts exactly the observed exception and post-state; any other deviation is a violation.",
-    "Scope: TreeError/LoopError, TypeError for non-iterable children, or only _pre_* hooks raised. The step model (vf/mut.py StepModel) is used solely to classify deviations, never as oracle.",
+    "Every forest over N <= 3 (quick) / <= 4 (thorough) nodes x every call x every position at which a pre-hook can raise (once, pairs covering the hooks re-run by the rollback, persistent single (hook,node), read-only plan) and every invalid argument (non-node parents for both mixins, non-node children for NodeMixin, non-iterables), plus Hypothesis histories: an in-scope failing call must leave the whole-universe snapshot unchanged. Four known findings (KF-C03-1..4) are recognised only when a step model of the current rollback algorithm predicts exactly the observed exception and post-state; any other deviation is a violation.",
+    "Scope: TreeError/LoopError, TypeError for non-iterable children, any exception for a non-node parent, or only _pre_* hooks raised. The step model (vf/mut.py StepModel) only classifies deviations, it is never the oracle." + COMMON_NOTE,
     "fault enumeration of pre-hook exception positions vs. pre-state == post-state, deviations classified against known findings",
-    "DESIGN.md section 4 C03",
+    "DESIGN.md sections 4 C03, 2.6, 9.1",
 )
 check(
-    "C16",
+    "C04",
     "exploration",
-    "Logging hooks snapshot the forest at every invocation. For successful calls, refused calls and hook-aborted parent assignments the complete log must equal the closed-form protocol log; for every call (also failed children assignments with rollback) the forest may change only between matching pre/post detach or attach hooks and each hook must observe the documented before/after state; post-hook exceptions of parent assignments must leave the preceding step done. Enumerated over all forests N <= 3/4 x calls x single fault positions, plus Hypothesis histories.",
-    "Hook logs of failed children assignments are not prescribed by the statement (only the bracket invariant applies); calls ending in RecursionError (KF-C03-4) are not bracket-checked.",
-    "bounded-exhaustive forests x calls x fault positions + Hypothesis histories vs. closed-form hook log and bracket invariant over in-hook snapshots",
-    "DESIGN.md section 4 C16",
+    "Every node of every ordered tree shape up to 7 (quick) / 10 (thorough) nodes, for nine node classes, is checked against definitions recomputed from .parent/.children only (identity comparison); commonancestors on all pairs/triples and degenerate argument lists; Hypothesis trees up to 40 nodes and mutation histories with all attributes re-checked after every step; the upward-looking attributes also on chains of 700-3000 nodes.",
+    "Trusts the recomputation in vf/props/c04.py; downward-recursive attributes are not exercised beyond 60 nodes (interpreter recursion limit)." + COMMON_NOTE,
+    "bounded-exhaustive shapes + Hypothesis trees and mutation histories vs. definitions recomputed from the links",
+    "DESIGN.md sections 4 C04, 9.1",
 )
 check(
-    "C18",
+    "C05",
     "exploration",
-    "The same generated history (arguments, fault plans, initial forest) is applied in lock-step to a NodeMixin universe and a slotted LightNodeMixin universe: outcome class, forest and hook log are compared after every call, and every navigation attribute, util helper, iterator (with restrictions), search, Walker, Resolver.get/glob and RenderTree result afterwards. Enumerated over all forests N <= 3/4 x calls x single fault positions, plus Hypothesis histories.",
-    "Pure differential check (no reference model); only tree-node arguments; histories are cut at a RecursionError outcome.",
-    "lock-step differential testing of the two mixins over enumerated single steps and Hypothesis histories",
-    "DESIGN.md section 4 C18",
+    "Every start node of every shape up to 8 (quick) / 11 (thorough) nodes for six node classes, Hypothesis shapes up to 60 nodes re-checked after up to three mutations, and trunks of 270-400 nodes with a crown on top: each of the five iterators is compared element-wise (identity) with an independently written reference order, plus exactly-once, group/tuple, no-mutation clauses; abandoned and interleaved iterations must not influence later ones.",
+    "Trusts the reference orders in vf/refs.py (recursion / explicit queue over .children)." + COMMON_NOTE,
+    "bounded-exhaustive shape enumeration + Hypothesis random trees vs. reference traversal orders",
+    "DESIGN.md sections 4 C05, 9.1, 9.2",
+)
+check(
+    "C06",
+    "exploration",
+    "The complete product start node x stop subset x filtered-out subset x maxlevel is enumerated on every shape with <= 5 (quick) / <= 6 (thorough; 7-node shapes with the root as start) nodes for all five iterators, keyword and positional argument forms, both ways of passing empty predicates, after an abandoned iteration; Hypothesis adds trees up to 25 nodes with mutation phases. Results are compared with the reference 'admitted set' restriction of the unrestricted order. Exhaustive inside the bound, sampled beyond.",
+    "Trusts the admitted-set reference in vf/refs.py; predicates are pure functions of node identity." + COMMON_NOTE,
+    "bounded-exhaustive option product + Hypothesis vs. admitted-set reference restriction",
+    "DESIGN.md sections 4 C06, 9.1",
 )
 check(
     "C07",
     "exploration",
-    "Trees up to 12 nodes with adversarial names, six separators, both path attributes and all four ignorecase/relax combinations: for every ordered node pair the absolute path and the relative path spelled from Walker.walk must resolve to the target (identity), and generated component sequences (names, unknown names, '..', '.', '', leading/trailing/double separators) must give exactly the node or exception class (and exc.node) a reference interpreter of the statement gives; relaxed mode must return None exactly there and never raise. All short paths over a 7-symbol alphabet are enumerated on all small shapes (with and without sibling names that differ only in case); the thorough tier adds 16 coverage-guided atheris campaigns on the same strategy and oracle. Generated cases carry up to three mutations (move, detach, reverse children, rename); the complete oracle is re-evaluated on the same node objects after each of them (read - mutate - read again), which is what exposes stale caches.",
-    "Trusts vf/resolver_ref.py ref_get; names never contain separator characters, are never '', '.', '..'; special-casing characters are not generated. Found and repaired defect D3 (fix: commit 093226e) is replayed as regression input.",
+    "Trees up to 12 nodes with adversarial names (regex/wildcard metacharacters, the other separators, case variants of sibling names), six separators, two path attributes, all ignorecase/relax combinations, resolver objects re-used for the whole process: for every ordered node pair the absolute path and the relative path spelled from Walker.walk must resolve to the target; generated component sequences must give exactly the node or exception class (and exc.node) a reference interpreter of the statement gives; relaxed mode returns None exactly there and never raises. All short paths over a 7-symbol alphabet are enumerated on small shapes (with and without duplicate names); cases are re-checked after moves, detaches and renames; the thorough tier adds 16 atheris campaigns on the same strategy and oracle.",
+    "Trusts vf/resolver_ref.py ref_get; names never contain separator characters and are never '', '.', '..'; special-casing characters are not generated. Repaired defect D3 (fix: 093226e) is replayed as regression input." + COMMON_NOTE,
     "Hypothesis trees/names/paths + exhaustive short paths (+ atheris campaigns in the thorough tier) vs. reference path interpreter and two round trips",
-    "DESIGN.md section 4 C07",
+    "DESIGN.md sections 4 C07, 9.1",
 )
 check(
     "C08",
     "exploration",
-    "Every query runs in relaxed and strict mode on the shared class-level pattern cache (queries of a case form a cache history with more than 20 distinct components, ignorecase pairs and explicit clears). Relaxed: never raises, identity set equals a reference evaluator with its own DP wildcard matcher, pre-order/duplicate clauses. Strict: same list or ResolverError only with a genuine dead end; wildcard-free patterns agree with get. All patterns of <= 3 (quick) / <= 4 (thorough) components over a 10-symbol alphabet (incl. the empty component) are enumerated on all shapes <= 4/5 nodes; the thorough tier adds 16 coverage-guided atheris campaigns on the same strategy and oracle. Generated cases carry up to three mutations (move, detach, reverse children, rename); the complete oracle is re-evaluated on the same node objects after each of them (read - mutate - read again), which is what exposes stale caches.",
-    "Trusts vf/resolver_ref.py ref_glob/wildmatch; '**' as absolute root component not generated; strict clauses only on sibling-unique names. Defect D4 repaired (fix: 7a838a2); KF-C08-1 recognised only by its dead-end signature with the subsequence requirement.",
+    "Every query runs in relaxed and strict mode on the shared class-level pattern cache (the queries of a case form a cache history with more than 20 distinct components, ignorecase pairs, re-use after eviction, explicit clears). Relaxed: never raises, identity set equals a reference evaluator with its own DP wildcard matcher, pre-order/duplicate clauses. Strict: same list or ResolverError only with a genuine dead end; wildcard-free patterns agree with get. All patterns of <= 3 (quick) / <= 4 (thorough) components over an 11-symbol alphabet (incl. the empty component and a literal with '[') are enumerated on all shapes <= 4/5 nodes with three naming schemes; the thorough tier adds 16 atheris campaigns.",
+    "Trusts vf/resolver_ref.py ref_glob/wildmatch; '**' as absolute root component not generated; strict clauses only on sibling-unique names. Defect D4 repaired (fix: 7a838a2); KF-C08-1 recognised only by its dead-end signature with the subsequence requirement." + COMMON_NOTE,
     "Hypothesis patterns/cache histories + exhaustive short patterns (+ atheris campaigns in the thorough tier) vs. reference glob evaluator; relaxed/strict/get metamorphic relations",
-    "DESIGN.md section 4 C08",
+    "DESIGN.md sections 4 C08, 9.1",
+)
+check(
+    "C09",
+    "exploration",
+    "Rows of RenderTree are compared with a row oracle built from 'has following sibling' flags for every shape <= 6/8 nodes x start x 7 styles x 5 childiters x every maxlevel, keyword and positional forms, and the drawing is decoded back into a shape from the prefixes alone; abandoned/interleaved renderings, a RenderTree object kept across mutations and option changes; Hypothesis adds larger trees, random equal-width styles, multi-line/empty/list/tuple/int/missing/callable values for by_attr and str() (on a class whose __str__ differs from its __repr__), and Node/AnyNode/SymlinkNode reprs with generated attributes (prefix-related names), names (also tuples) and separators, re-checked after renames and moves.",
+    "Assumes lines are separated by '\\n' only and values carry no trailing newline (not generated); custom styles are decodable (cont != end, vertical != blank)." + COMMON_NOTE,
+    "bounded-exhaustive shapes x options + Hypothesis text values vs. row oracle and decode-back round trip",
+    "DESIGN.md sections 4 C09, 9.1",
 )
 check(
     "C10",
     "exploration",
-    "Generated trees of AnyNode/Node/a user NodeMixin class with arbitrary attribute dictionaries (non-identifier and underscore keys; None, numbers, text, bytes, tuples, sets, nested containers, opaque objects) and every attriter/childiter/dictcls/maxlevel choice at every level: export equals an independent serialisation (key order, mapping type, 'children' only when non-empty), import_(export(t)) is isomorphic with equal attributes, export(import_(d)) equals d up to empty 'children' lists for generated nested dictionaries, and neither call modifies its argument. The option product is enumerated on all shapes <= 4/6 nodes. Generated cases carry up to three mutations (move, detach, reverse children, rename); the complete oracle is re-evaluated on the same node objects after each of them (read - mutate - read again), which is what exposes stale caches.",
-    "Trusts the reference serialiser in vf/props/c10.py; attribute keys avoid 'parent', 'children' and constructor parameter names; immutability judged on public state.",
+    "Generated trees of AnyNode/Node/a user NodeMixin class/container-like and equal-comparing AnyNode subclasses with arbitrary attribute dictionaries (non-identifier, underscore and property-named keys; None, numbers, text, bytes, tuples, sets, nested containers, opaque objects) and every attriter/childiter (lists, generators, one-shot iterators, filters that remove all children)/dictcls/maxlevel choice: export equals an independent serialisation (key order, mapping type, 'children' only when non-empty), import_(export(t)) is isomorphic, export(import_(d)) equals d up to empty 'children' lists for generated nested dictionaries with the 'children' key at any position, and neither call modifies its argument (key order included). The option product is enumerated on all shapes <= 4/6 nodes.",
+    "Trusts the reference serialiser in vf/props/c10.py; attribute keys avoid 'parent', 'children' and constructor parameter names; bookkeeping = the mixins' name-mangled private attributes; immutability judged on public state." + COMMON_NOTE,
     "Hypothesis attributed trees and nested dictionaries + enumerated option product vs. reference serialiser and two round trips",
-    "DESIGN.md section 4 C10",
+    "DESIGN.md sections 4 C10, 9.1",
 )
 check(
     "C11",
     "exploration",
-    "Generated trees with JSON-representable values (huge ints, finite floats, non-ASCII/control/astral text, nested lists and dicts) under every combination of indent/sort_keys/ensure_ascii/separators/maxlevel, with and without a custom DictExporter (own attriter/childiter/maxlevel) and custom DictImporter/object_pairs_hook: export() must equal json.dumps(reference dict, **options) textually, write() must emit the same text, import_() and read() must rebuild an isomorphic tree with type-strictly equal values. Generated cases carry up to three mutations (move, detach, reverse children, rename); the complete oracle is re-evaluated on the same node objects after each of them (read - mutate - read again), which is what exposes stale caches.",
-    "Trusts json.dumps of the standard library and the C10 reference serialiser; NaN/Infinity, tuples and non-string keys are outside the property.",
+    "Generated trees with JSON-representable values (huge ints, finite floats, non-ASCII/control/astral text, nested lists and dicts incl. 'children'/'parent' keys) under every combination of indent/sort_keys/ensure_ascii/separators (also spelled out with their default values) and maxlevel, with and without a custom DictExporter and custom DictImporter/object_pairs_hook: export() must equal json.dumps(reference dict, **options) textually, write() must emit the same text, import_() and read() must rebuild an isomorphic tree with type-strictly equal values - also when the same text is imported again after the first result was edited in place.",
+    "Trusts json.dumps of the standard library and the C10 reference serialiser; NaN/Infinity, tuples and non-string keys are outside the property." + COMMON_NOTE,
     "Hypothesis JSON-valued trees x option bundles vs. json.dumps(reference) and import round trip",
-    "DESIGN.md section 4 C11",
+    "DESIGN.md sections 4 C11, 9.1",
 )
 check(
     "C12",
     "exploration",
-    "The complete product start x stop subset x filtered-out subset x maxlevel (None, 0..height+2) on every shape <= 5 (quick) / <= 6 (thorough) nodes for DotExporter, UniqueDotExporter and RenderTreeGraph with quote/backslash/newline/non-ASCII names, plus Hypothesis trees with colliding names, custom name/attribute/edge functions, options, indent, graph/name and to_dotfile: header, option lines, node statements in reference pre-order with recoverable escaped identifiers, edge statements as a multiset equal to the declared parent-child pairs, closing brace, identifier stability on re-iteration. Generated cases carry up to three mutations (move, detach, reverse children, rename); the complete oracle is re-evaluated on the same node objects after each of them (read - mutate - read again), which is what exposes stale caches.",
-    "Defect D7 repaired (fix: 3fd3770). KF-C12-1 (edge to a directly stopped child, pinned by the repository's reference files) is recognised only by its signature: declared parent, depth in range, stop(c) and filter_(c) true; any other undeclared edge end is a violation.",
+    "The complete product start x stop subset x filtered-out subset x maxlevel (None, 0..height+2) on every shape <= 5 (quick) / <= 6 (thorough) nodes for DotExporter, UniqueDotExporter and RenderTreeGraph with quote/backslash/newline/non-ASCII names (incl. backslash followed by n/l/r), plus Hypothesis trees with colliding names, custom name/attribute/edge functions, options, indent, graph/name, to_dotfile and mutation phases: header, option lines, node statements in reference pre-order with recoverable escaped identifiers, edge statements as a multiset equal to the declared parent-child pairs, closing brace. The same exporter object is iterated again interleaved, after the tree has grown and after the admitted set has shrunk; identifiers must stay stable.",
+    "Defect D7 repaired (fix: 3fd3770). KF-C12-1 (edge to a directly stopped child, pinned by the repository's reference files) is recognised only by its signature: declared parent, depth in range, stop(c) and filter_(c) true; any other undeclared edge end is a violation." + COMMON_NOTE,
     "bounded-exhaustive option product + Hypothesis names/functions vs. parse-back of emitted lines against the declared sub-forest",
-    "DESIGN.md section 4 C12",
+    "DESIGN.md sections 4 C12, 9.1",
 )
 check(
     "C13",
     "exploration",
-    "Same product and generators as C12 for MermaidExporter: header, option lines, node lines indent+id+nodefunc in reference pre-order, default label escaping, distinct and stable identifiers, edge lines as a multiset equal to the declared parent-child pairs, to_file fence. Generated cases carry up to three mutations (move, detach, reverse children, rename); the complete oracle is re-evaluated on the same node objects after each of them (read - mutate - read again), which is what exposes stale caches.",
-    "Defect D7 repaired (fix: b21f505). Default identifiers are read off the node lines and must match N<digits>.",
+    "Same product, generators and re-iteration phases as C12 for MermaidExporter: header, option lines, node lines indent+id+nodefunc in reference pre-order, default label escaping, distinct and stable identifiers, edge lines as a multiset equal to the declared parent-child pairs, to_file fence.",
+    "Defect D7 repaired (fix: b21f505). Default identifiers are read off the node lines and must be plain identifier tokens." + COMMON_NOTE,
     "bounded-exhaustive option product + Hypothesis names/functions vs. expected lines built from the declared sub-forest",
-    "DESIGN.md section 4 C13",
+    "DESIGN.md sections 4 C13, 9.1",
+)
+check(
+    "C14",
+    "exploration",
+    "For generated attributed trees (nodes may lack the searched attribute; dotted attribute names; class-level defaults and read-only properties as search keys; None, list and tuple values) every (mincount, maxcount) combination around the true match count is executed for findall/findall_by_attr in search and cachedsearch, keyword and positional, plus find/find_by_attr; results are compared by identity with the reference filtered pre-order, CountError is required iff a bound is violated and its message must name both numbers; everything is repeated after structure and attribute mutations.",
+    "Trusts the C06 reference; 'the attribute exists' is judged with getattr; fastcache is not installed in this sandbox so cachedsearch runs its pass-through wrappers." + COMMON_NOTE,
+    "Hypothesis attributed trees + systematic small cases vs. reference filtered pre-order and iff count-bound predicate",
+    "DESIGN.md sections 4 C14, 9.1",
+)
+check(
+    "C15",
+    "exploration",
+    "Every ordered pair of nodes of every shape up to 7 (quick) / 10 (thorough) nodes (eleven node classes, incl. tuple-valued names), each shape re-checked after three mutations, cross-tree pairs, sampled pairs on Hypothesis trees up to 60 nodes, and chains of 700-3000 nodes: the triple is compared with path arithmetic on ancestor chains recomputed from .parent, the link/simple-path clauses are checked directly, walk(end,start) must be the mirror image, WalkError iff roots differ. One Walker object is used for the whole process.",
+    "Trusts the ancestor-chain arithmetic in vf/props/c15.py." + COMMON_NOTE,
+    "bounded-exhaustive shapes x all ordered pairs + Hypothesis vs. ancestor-chain path arithmetic and mirror relation",
+    "DESIGN.md sections 4 C15, 9.1",
+)
+check(
+    "C16",
+    "exploration",
+    "Logging hooks snapshot the forest at every invocation. For successful calls, refused calls and hook-aborted parent assignments the complete log must equal the closed-form protocol log; for every call (also failed children assignments with rollback) the forest may change only between matching pre/post detach or attach hooks and each of the eight hooks must observe the documented before/after state; post-hook exceptions of parent assignments must leave the preceding step done. Enumerated over all forests N <= 3/4 x calls x single fault positions and tree-editing ('evict') hooks, Hypothesis histories, and read-free (blind) call sequences whose per-call logs are compared with the closed-form log.",
+    "Hook logs of failed children assignments are not prescribed by the statement (only the bracket invariant applies); calls ending in RecursionError (KF-C03-4) are not bracket-checked; calls with a tree-editing hook are judged by in-hook observations and link consistency only." + COMMON_NOTE,
+    "bounded-exhaustive forests x calls x fault positions + Hypothesis and read-free histories vs. closed-form hook log and bracket invariant over in-hook snapshots",
+    "DESIGN.md sections 4 C16, 9.1, 9.5",
 )
 check(
     "C17",
     "exploration",
-    "Node classes are generated: any subset of the 12 comparison/hash/bool/container special methods with adversarial-constant, raising or unhashable behaviour on three bases (Node, a NodeMixin class, a slotted LightNodeMixin class), optionally mixed with plain nodes in one forest. A generated mutation history and afterwards every read-only API (navigation, util, iterators, search, Walker, Resolver get/glob, RenderTree, Dot/UniqueDot/Mermaid/Dict/Json exporters) run on the generated class and on a plain class; label-mapped results and exception classes must be equal and the generated methods' invocation counters must stay 0. Each single method x behaviour x base is covered systematically.",
-    "Differential oracle (plain class of the same base); the harness touches nodes only by identity. Defects D6a and D6b repaired (fix: e819994, bb01c9a).",
+    "Node classes are generated: any subset of the 12 comparison/hash/bool/container special methods with adversarial-constant, raising or unhashable behaviour on five bases (Node, a NodeMixin class, a slotted LightNodeMixin class, a Node that is also a list, a tuple record), optionally mixed with plain nodes in one forest. A generated mutation history (incl. constructor calls with such nodes as parent=) and afterwards every read-only API (navigation, util incl. single-argument commonancestors, iterators, search, Walker, Resolver get/glob, RenderTree, Dot/UniqueDot/Mermaid/Dict/Json exporters) run on the generated class and on a plain class; label-mapped results and exception classes must be equal and the generated methods' invocation counters must stay 0.",
+    "Differential oracle (plain class of the same ordinary base); the harness touches nodes only by identity. Defects D6a and D6b repaired (fix: e819994, bb01c9a)." + COMMON_NOTE,
     "generated adversarial classes x Hypothesis histories, differential vs. plain class + never-invoked counters",
-    "DESIGN.md section 4 C17",
+    "DESIGN.md sections 4 C17, 9.1",
+)
+check(
+    "C18",
+    "exploration",
+    "The same generated history (arguments, fault plans incl. tree-editing hooks, initial forest) is applied in lock-step to a NodeMixin universe and a slotted LightNodeMixin universe (ordinary classes and equal-comparing classes): outcome class, forest and hook log are compared after every call, and every navigation attribute, util helper, iterator (with restrictions), search, Walker, Resolver.get/glob and RenderTree result afterwards. Enumerated over all forests N <= 3/4 x calls x single fault positions, plus Hypothesis histories.",
+    "Pure differential check (no reference model); only tree-node arguments; histories are cut at a RecursionError outcome." + COMMON_NOTE,
+    "lock-step differential testing of the two mixins over enumerated single steps and Hypothesis histories",
+    "DESIGN.md sections 4 C18, 9.1",
 )
 check(
     "C19",
     "exploration",
-    "Every shape <= 5/6 nodes x 5 class schemes (Node, mixed NodeMixin classes, trees with SymlinkNodes whose targets are in the same tree, in a second tree or other links, slotted and dict-carrying LightNodeMixin classes) x every entry node x every applicable pickle protocol and copy.deepcopy, plus Hypothesis trees <= 30 nodes: the copy must be isomorphic (shape, order, classes, attribute values), the result must occupy the entry's position, share no object with the original, satisfy the C01 invariant, keep link targets pointing at the corresponding copied node, and mutations of either side must not show on the other.",
-    "Protocols 0/1 only for classes without __slots__; trees stay far below pickle/deepcopy recursion limits.",
+    "Every shape <= 5/6 nodes x 6 class schemes (Node, mixed NodeMixin classes, trees with SymlinkNodes whose targets are in the same tree, in a second tree or other links, falsy/equal-comparing/container-like classes, slotted and dict-carrying LightNodeMixin classes) x every entry node x every applicable pickle protocol and copy.deepcopy, plus Hypothesis trees <= 30 nodes: the copy must be isomorphic (shape, order, classes, attribute values), the result must occupy the entry's position, share no object with the original, satisfy the C01 invariant (also after a fresh node was attached below a copied leaf), keep link targets pointing at the corresponding copied node, and mutations of either side must not show on the other.",
+    "Protocols 0/1 only for classes without __slots__; trees stay far below pickle/deepcopy recursion limits." + COMMON_NOTE,
     "bounded-exhaustive shapes x class schemes x entry x protocol + Hypothesis vs. isomorphism/position/disjointness/consistency/independence oracle",
-    "DESIGN.md section 4 C19",
+    "DESIGN.md sections 4 C19, 9.1",
 )
 check(
     "C20",
     "exploration",
-    "Histories over a growing universe of plain nodes and links (SymlinkNode with constructor keywords, a SymlinkNodeMixin subclass; links to links, same or other tree) with structural calls and attribute writes on links and targets: after every step the whole node x attribute-name table read through getattr is compared with an attribute-store model, every node's navigation attributes with the C04 definitions at its own position, and the whole forest with the closed-form structural model.",
-    "Attribute names exclude the node API; after a refused structural call only exception class and link invariant are judged (rollback is C03). Defect D9 repaired (fix: 1363094).",
+    "Histories over a growing universe of plain nodes (Node, AnyNode, a Node subclass with a property-backed attribute) and links (SymlinkNode with constructor keywords, a SymlinkNodeMixin subclass; links to links, same or other tree) with structural calls and attribute writes (values incl. None/False/0; names near 'parent'/'children'/'target' and dunder-style names) on links and targets: after every step the whole node x attribute-name table read through getattr is compared with an attribute-store model, every node's navigation attributes with the C04 definitions at its own position, and the whole forest with the closed-form structural model.",
+    "Attribute names exclude the node API and names Python itself looks up on instances; after a refused structural call only exception class and link invariant are judged (rollback is C03). Defect D9 repaired (fix: 1363094)." + COMMON_NOTE,
     "Hypothesis stateful histories + systematic link-chain scripts vs. attribute-store model and structural model",
-    "DESIGN.md section 4 C20",
+    "DESIGN.md sections 4 C20, 9.1",
 )
